@@ -119,6 +119,9 @@ fn program(rng: &mut Rng, with_labelled_only_site: bool) -> Prog {
     } else {
         bodies.push_str(&format!("* [{mk} {{{c}}} end]\n    taken\n    -> hub\n+ [back]\n    -> hub\n"));
     }
+    // a call inside a string, made by an ink function that has already printed a whole line into that string
+    s.push_str("+ [go kstr2] -> kstr2\n");
+    bodies.push_str("=== kstr2 ===\nentering kstr\n~ temp s2 = \"{wrapf()}\"\nstrtwo done\n-> hub\n=== function wrapf() ===\nwrap line\n~ return e0(3)\n");
     if with_labelled_only_site {
         s.push_str("+ [go klab] -> klab\n");
         // the only call site of `eonly`: at / below a labelled gather, in the shapes the compiler nests differently
@@ -264,6 +267,9 @@ fn run_case(c: &Compiled, prog: &Prog, mode: Mode, rng: &mut Rng, max_ops: usize
                 }
                 if text.starts_with("entering kstr") {
                     in_kstr_pending_error = mode == Mode::BoundUnsafe;
+                }
+                if text.starts_with("strtwo") && mode == Mode::BoundUnsafe {
+                    fail!("unsafe-call-in-string-after-function-text-was-not-refused", json!({"line": text, "events": r.events}));
                 }
             }
             if !errors.is_empty() {
